@@ -17,7 +17,8 @@ def exampleKinds : List Kind := [.parameter, .mediaType, .header]
 /-- what the theorems need of the table (decided on the regenerated table in Props/C04.lean): every method
 of `extKinds` calls `validateExtensions` under every option set (on some path: `alwaysHolds`); defaults / examples are checked, and the example
 objects visited, exactly unless the option that names them is set; a reference wrapper validates its value;
-the only errors dropped are those of the headers of an encoding object; every component name is checked -/
+no error ends a method with success, the only error dropped is that of a header of an encoding object (whose
+key is checked); every component name is checked -/
 def TableOK (T : Table) : Bool :=
   extKinds.all (fun k => alwaysHolds (rowsFor T.checks k "extensions")) &&
   holdsAs (rowsFor T.checks .schema "default") (fun _ d _ _ => !d) &&
@@ -27,7 +28,8 @@ def TableOK (T : Table) : Bool :=
     holdsAs (rowsFor T.checks k "examples") (fun e _ _ x => !e && !(k == .parameter && x)) &&
     holdsAs (rowsFor T.edges k "examples") (fun e _ s x => !e && s && !(k == .parameter && x))) &&
   (rowsFor T.edges .exampleRef "value").contains [] &&
-  (T.swallows == [(.encoding, "identifier:headers", []), (.encoding, "headers", [])]) &&
+  (T.swallows == []) && (T.ignored == [(.encoding, "headers", [])]) &&
+  (rowsFor T.checks .encoding "identifier:headers").contains [] &&
   componentPositions.all (fun p => (rowsFor T.checks .components ("identifier:" ++ p)).contains [])
 
 structure TableFacts (T : Table) : Prop where
@@ -39,14 +41,16 @@ structure TableFacts (T : Table) : Prop where
     holdsAs (rowsFor T.checks k "examples") (fun e _ _ x => !e && !(k == .parameter && x)) = true ∧
     holdsAs (rowsFor T.edges k "examples") (fun e _ s x => !e && s && !(k == .parameter && x)) = true
   exRef : (rowsFor T.edges .exampleRef "value").contains [] = true
-  swallows : T.swallows = [(.encoding, "identifier:headers", []), (.encoding, "headers", [])]
+  swallows : T.swallows = []
+  ignored : T.ignored = [(.encoding, "headers", [])]
+  encIdent : (rowsFor T.checks .encoding "identifier:headers").contains [] = true
   ident : ∀ p ∈ componentPositions, (rowsFor T.checks .components ("identifier:" ++ p)).contains [] = true
 
 theorem tableFacts (T : Table) (hT : TableOK T = true) : TableFacts T := by
   unfold TableOK at hT
   simp only [Bool.and_eq_true, List.all_eq_true, beq_iff_eq] at hT
-  obtain ⟨⟨⟨⟨⟨⟨h1, h2⟩, h3⟩, h4⟩, h5⟩, h6⟩, h7⟩ := hT
-  exact ⟨h1, h2, h3, fun k hk => ⟨(h4 k hk).1.1, (h4 k hk).1.2, (h4 k hk).2⟩, h5, h6, h7⟩
+  obtain ⟨⟨⟨⟨⟨⟨⟨⟨h1, h2⟩, h3⟩, h4⟩, h5⟩, h6⟩, h6b⟩, h6c⟩, h7⟩ := hT
+  exact ⟨h1, h2, h3, fun k hk => ⟨(h4 k hk).1.1, (h4 k hk).1.2, (h4 k hk).2⟩, h5, h6, h6b, h6c, h7⟩
 
 theorem anyHolds_of_nil (o : Opts) (a : Attrs) (gss : List (List String)) (h : gss.contains [] = true) :
     anyHolds o a gss = true := by
@@ -157,7 +161,7 @@ theorem localOK_plainExt (T : Table) (o : Opts) (k : Kind) (a : Attrs) (kids : L
   rcases hk with rfl | rfl | rfl | rfl | rfl | rfl | rfl | rfl | rfl | rfl | rfl | rfl | rfl | rfl | rfl | rfl | rfl | rfl | rfl | rfl | rfl
   all_goals
     (have hx' := hx (by simp [extKinds])
-     simp (disch := decide) only [localOK, rulesOK, violations, Doc.kind, Doc.attrs, List.all_append, all_when, extra_all, hx',
+     simp (disch := decide) only [localOK, localOKp, rulesOK, violations, Doc.kind, Doc.attrs, List.all_append, all_when, extra_all, hx',
        enabled_plain, securitySchemeOKCode, oauthFlowOKCode, serverOKCode, securitySchemeViols_all, oauthFlowViols_all,
        serverViols_all]
      try ((repeat' split) <;> simp_all <;> grind))
@@ -169,6 +173,6 @@ theorem localOK_trivial (T : Table) (o : Opts) (k : Kind) (a : Attrs) (kids : Li
     (hk : k ∈ trivialKinds) :
     localOK T o (.node k a kids) vs = rulesOK o (.node k a kids) := by
   simp only [trivialKinds, List.mem_cons, List.not_mem_nil, or_false] at hk
-  rcases hk with rfl | rfl | rfl | rfl | rfl <;> simp [localOK, rulesOK, violations, Doc.kind]
+  rcases hk with rfl | rfl | rfl | rfl | rfl <;> simp [localOK, localOKp, rulesOK, violations, Doc.kind]
 
 end KinModel.DocValidate
